@@ -28,11 +28,28 @@ pub struct RawE2 {
     pub choices: Vec<u16>,
 }
 
-fn raw_e2() -> impl Strategy<Value = RawE2> {
-    (gen::raw_grammar(), proptest::collection::vec(any::<u16>(), 8..64)).prop_map(|(mut grammar, choices)| {
+fn raw_e2(which: Which) -> impl Strategy<Value = RawE2> {
+    (gen::raw_grammar(), proptest::collection::vec(any::<u16>(), 8..64)).prop_map(move |(mut grammar, choices)| {
         // 3 of 4 cases with conflict repair: raises the yield of accepted grammars
         if choices[0] % 4 != 0 {
             grammar.source |= 2;
+        }
+        if which == Which::C02 {
+            // tree building is where the fieldset form and the `_` mask matter: half of the random fieldsets are made
+            // named ones, and a third of the fields that were generated as used become `_`
+            for (i, nt) in grammar.nts.iter_mut().enumerate() {
+                for (j, v) in nt.variants.iter_mut().enumerate() {
+                    let c = choices[(i * 7 + j * 3 + 5) % choices.len()];
+                    if c % 2 == 0 && v.form != 0 {
+                        v.form = 1;
+                    }
+                    for (k, f) in v.fields.iter_mut().enumerate() {
+                        if choices[(i + j + k * 5 + 6) % choices.len()] % 3 == 0 {
+                            f.1 = false;
+                        }
+                    }
+                }
+            }
         }
         RawE2 { grammar, choices }
     })
@@ -75,12 +92,12 @@ pub fn inputs_for(cfg: &Cfg, a: &Analysis, ch: &mut Chooser, which: Which) -> Ve
     let heights = cfg::min_heights(cfg);
     let mut sentences: Vec<Vec<u16>> = vec![];
     let n_deriv = match which {
-        Which::C02 => 40,
-        _ => 24,
+        Which::C02 => 200,
+        _ => 32,
     };
     for k in 0..n_deriv {
         let choices: Vec<u16> = (0..24).map(|_| ch.next()).collect();
-        let budget = [3, 6, 12, 24, 40][k % 5];
+        let budget = [3, 6, 12, 24, 40, 8, 16, 56][k % 8];
         if let Some(t) = cfg::random_derivation(cfg, &heights, &choices, budget) {
             let mut leaves = vec![];
             t.leaves(&mut leaves);
@@ -296,7 +313,8 @@ pub fn judge_case(ctx: &Ctx, c: &E2Case, which: Which) -> Result<Vec<Expect>, Fa
                 (_, Obs::Panic { .. }, Which::C01) => {
                     return Err(Failure::new("parser-panicked", format!("parse panicked on input {inp:?}"), casef()));
                 }
-                (_, Obs::Panic { .. }, _) => return Err(Failure::internal("parser-panicked", format!("parse panicked on {inp:?} (C01 judges that)"), casef())),
+                // C01 judges panics; C02 / C03 go on with the other inputs
+                (_, Obs::Panic { .. }, _) => continue,
                 (Expect::Accept(_), Obs::Ok { .. }, Which::C01) | (Expect::Reject(_), Obs::ErrSome { .. } | Obs::ErrNone { .. }, Which::C01) => {}
                 (Expect::Accept(_), other, Which::C01) => {
                     return Err(Failure::new(
@@ -357,10 +375,8 @@ pub fn judge_case(ctx: &Ctx, c: &E2Case, which: Which) -> Result<Vec<Expect>, Fa
                 // rejected inputs are not C02's subject, accepted ones not C03's
                 (Expect::Reject(_), Obs::ErrSome { .. } | Obs::ErrNone { .. }, Which::C02) => {}
                 (Expect::Accept(_), Obs::Ok { .. }, Which::C03) => {}
-                // acceptance mismatches are C01's
-                (Expect::Accept(_), _, _) | (Expect::Reject(_), Obs::Ok { .. }, _) => {
-                    return Err(Failure::internal("acceptance-mismatch", format!("acceptance of {inp:?} differs from the reference (C01 judges that)"), casef()))
-                }
+                // acceptance mismatches are C01's; C02 / C03 go on with the other inputs
+                (Expect::Accept(_), _, _) | (Expect::Reject(_), Obs::Ok { .. }, _) => continue,
             }
         }
     }
@@ -564,7 +580,15 @@ fn build_case(raw: &RawE2, which: Which, st: &mut Stats) -> Option<(E2Case, Anal
         return None;
     }
     let mut ch = Chooser::new(&raw.choices);
-    let mut naming = Naming::conventional(&spec);
+    // one case in three under an adversarial naming (helper names, template locals, letter-less names): behaviour
+    // must not depend on what things are called
+    let mut naming = if raw.choices[3] % 3 == 0 {
+        st.class("naming:adversarial");
+        let mut nch = Chooser::new(&raw.choices[4..]);
+        super::hygiene::adversarial_naming(&spec, &mut nch).naming
+    } else {
+        Naming::conventional(&spec)
+    };
     let payload: Vec<Payload> = (0..spec.n_terms)
         .map(|_| {
             let k = ch.pick(10);
@@ -812,8 +836,12 @@ pub fn run(ctx: &Ctx, which: Which) -> i32 {
     }
     let mut c2 = ctx.clone();
     c2.shrink_iters = 48;
-    let cases = ctx.budget(1_000, 16_000);
-    let out = run_sharded(&c2, label, cases, raw_e2, |raw, st| e2_test(ctx, raw, which, st));
+    let cases = match which {
+        // C02 has no table-level half: trees only exist in the compiled parser
+        Which::C02 => ctx.budget(2_000, 24_000),
+        _ => ctx.budget(1_000, 16_000),
+    };
+    let out = run_sharded(&c2, label, cases, || raw_e2(which), |raw, st| e2_test(ctx, raw, which, st));
     rep.absorb("E2-rustc-compiled-parsers", out);
     let vs: Vec<Failure> = std::mem::take(&mut rep.violations);
     rep.violations = vs.into_iter().map(|f| minimise_failing_input(ctx, f, which)).collect();
